@@ -458,7 +458,7 @@ fn run(line: &str) -> String {
             let c = json_shape::verif_hooks::counters();
             format!("CNT {} {} {} {}", c[0], c[1], c[2], c[3])
         }
-        op if op.starts_with("gen") || op == "compile" => genops::run(&a),
+        op if op.starts_with("gen") || op.starts_with("compile") => genops::run(&a),
         _ => "ERR BadOp".into(),
     }
 }
